@@ -52,6 +52,8 @@ impl Violation {
 #[derive(Clone, Debug, Default)]
 pub struct Stats {
     pub counters: BTreeMap<String, u64>,
+    /// running maxima of measured quantities (merged by max, so worker-count independent)
+    pub maxima: BTreeMap<String, f64>,
 }
 
 impl Stats {
@@ -68,6 +70,17 @@ impl Stats {
     pub fn merge(&mut self, o: &Stats) {
         for (k, v) in &o.counters {
             *self.counters.entry(k.clone()).or_insert(0) += v;
+        }
+        for (k, v) in &o.maxima {
+            self.max_f(k, *v);
+        }
+    }
+    pub fn max_f(&mut self, key: &str, v: f64) {
+        if v.is_finite() {
+            let e = self.maxima.entry(key.to_string()).or_insert(v);
+            if v > *e {
+                *e = v;
+            }
         }
     }
     pub fn get(&self, key: &str) -> u64 {
